@@ -199,7 +199,7 @@ PROPS = {
         'not_reached': ['pyo3 glue of pybindings/src/kmer.rs (__next__ delegates to the verified next); transmute lifetime extension'],
     },
     'C02': {
-        'units': ['kmer_gen', 'n2k', 'kmer_kani', 'kmer_sym'], 'deps': [], 'replay': 'c02',
+        'units': ['kmer_gen', 'n2k', 'kmer_kani', 'kmer_sym'], 'deps': [], 'replay': 'c02,c01',
         'level_text': 'Verus proves for the verbatim rev_comp and numeric_to_kmer, all k <= 31 and all codes: rev_comp(x,k) equals the arithmetic reverse '
                       'complement rc_num (loop invariant over the accumulator form), rc_num is an involution below 4^k and equals the code of the '
                       'reverse-complemented text; decoding gives k letters over ACGT that re-encode to x mod 4^k; every pair of the iterator stream has '
